@@ -83,7 +83,7 @@ def settings_text(inputs, outputs, iterations, out_file) -> str:
 CODE = {'geophires': 'geophires_x/GEOPHIRESv3.py', 'hip_ra_x': 'hip_ra_x/hip_ra_x.py', 'hip_ra': 'hip_ra/HIP_RA.py'}
 
 
-def run_mc(kind: str, base_text: str, inputs: list, outputs: list, iterations: int, workers: int, timeout: int = 900, relative: bool = False) -> dict:
+def run_mc(kind: str, base_text: str, inputs: list, outputs: list, iterations: int, workers: int, timeout: int = 900, relative: bool = False, coarse_clock: bool = False) -> dict:
     """`relative`: the result file is named by a relative MC_OUTPUT_FILE line of the settings file (no output argument); the driver resolves
     it against src/geophires_monte_carlo, where it is collected and removed again."""
     d = Path(tempfile.mkdtemp(prefix='vmc_', dir='/dev/shm' if os.path.isdir('/dev/shm') else None))
@@ -99,6 +99,8 @@ def run_mc(kind: str, base_text: str, inputs: list, outputs: list, iterations: i
     code = REPO / 'src' / CODE[kind]
     env = subprocess_env({'GEOPHIRES_X_VERIF_OBSERVER': 'harness.mc_observer', 'VERIF_MC_TRACE_DIR': str(tr), 'MPLBACKEND': 'Agg',
                           'TMPDIR': str(d)})
+    if coarse_clock:
+        env['VERIF_MC_COARSE_CLOCK'] = '1'
     try:
         p = subprocess.run([sys.executable, '-m', 'harness.mc_driver', str(workers), str(code), str(base), str(st)] + ([] if relative else [str(out)]),
                            cwd=str(VERIF), env=env, capture_output=True, text=True, timeout=timeout)
